@@ -157,7 +157,7 @@ func (st *wstate) checkClean(i int, l *scen.Lifetime, lf *model.Life, rep *scen.
 		obsIDs[id]++
 	}
 	for _, id := range sum.Tests {
-		if obsIDs[id] > 0 || freeIDs[id] || plan.DirtyAddressed {
+		if obsIDs[id] > 0 || freeIDs[id] || plan.MaybeDirty(id) {
 			continue
 		}
 		if prop, keep := keepIDs[id]; keep {
@@ -166,7 +166,11 @@ func (st *wstate) checkClean(i int, l *scen.Lifetime, lf *model.Life, rep *scen.
 			if st.hit(vv) {
 				return true
 			}
-			st.d.MarkDirty(keepFile[id], false)
+			for k := range plan.KeepTests {
+				if f, kid := model.SplitKey(k); kid == id {
+					st.d.MarkDirty(f, false) // the summary does not say which file: none of them is predicted any more
+				}
+			}
 		}
 	}
 	if !plan.HasRun {
@@ -204,7 +208,15 @@ func (st *wstate) checkClean(i int, l *scen.Lifetime, lf *model.Life, rep *scen.
 						file = f
 					}
 				}
-				vv := viol("clean-missed-stale-entry", i, -1, id, []string{"C09"}, "stale entry [%s] of %s is not reported by Clean (%d stale entries have this id, reported: %v)", id, file, n, sum.Tests)
+				props := []string{"C09"}
+				if j := strings.LastIndex(id, " - "); j >= 0 {
+					for _, sk := range rep.SkipCalls {
+						if strings.HasPrefix(id[:j], sk) {
+							props = append(props, "C08") // a skip protects the test and its descendants only
+						}
+					}
+				}
+				vv := viol("clean-missed-stale-entry", i, -1, id, uniq(props), "stale entry [%s] of %s is not reported by Clean (%d stale entries have this id, reported: %v)", id, file, n, sum.Tests)
 				vv.File = file
 				if st.hit(vv) {
 					return true
@@ -212,7 +224,7 @@ func (st *wstate) checkClean(i int, l *scen.Lifetime, lf *model.Life, rep *scen.
 			}
 		}
 		for _, id := range sum.Tests {
-			if obsIDs[id] == 0 && !freeIDs[id] && !plan.DirtyAddressed {
+			if obsIDs[id] == 0 && !freeIDs[id] && !plan.MaybeDirty(id) {
 				if _, keep := keepIDs[id]; !keep {
 					if st.hit(viol("clean-listed-unknown-entry", i, -1, id, []string{"C09", "C20"}, "Clean lists entry [%s] which no snapshot file of this world holds as stale", id)) {
 						return true
@@ -286,7 +298,7 @@ func keepWhy(prop string) string {
 // checkDisk compares the real disk with the abstract one after a lifetime.
 // After a violation attributed to a known finding the file concerned is no
 // longer predicted (dirty) and the comparison goes on with the other files.
-func (st *wstate) checkDisk(i int, l *scen.Lifetime, lf *model.Life, after world.Disk, plan *model.CleanPlan, touched map[string]bool, updatedAny bool) bool {
+func (st *wstate) checkDisk(i int, l *scen.Lifetime, lf *model.Life, after world.Disk, plan *model.CleanPlan, touched map[string]bool, updatedAny, matcherFailAny bool) bool {
 	d := st.d
 	tasks := l.Mode == "tasks"
 	callProps := func(p ...string) []string {
@@ -295,6 +307,9 @@ func (st *wstate) checkDisk(i int, l *scen.Lifetime, lf *model.Life, after world
 		}
 		if updatedAny {
 			p = append(p, "C04")
+		}
+		if matcherFailAny {
+			p = append(p, "C17") // "later calls of the test keep their slots"
 		}
 		return uniq(p)
 	}
@@ -352,10 +367,10 @@ func (st *wstate) checkDisk(i int, l *scen.Lifetime, lf *model.Life, after world
 				return []string{p}
 			}
 			if plan.ObsoleteTests[path+"\x00"+id] && id != "" {
-				return []string{"C09"} // removed although this mode may not delete
+				return []string{"C05", "C09"} // removed although this mode may not delete
 			}
 			if plan.ObsoleteFiles[path] || plan.FreeFiles[path] || plan.FreeTests[path+"\x00"+id] {
-				return []string{"C09"}
+				return []string{"C05", "C09"}
 			}
 			return []string{"C10"}
 		}
@@ -438,7 +453,7 @@ func (st *wstate) checkDisk(i int, l *scen.Lifetime, lf *model.Life, after world
 			props = append(props, "C19")
 		}
 		if plan != nil && plan.Deletes && plan.ObsoleteFiles[path] {
-			props = []string{"C09"}
+			props = []string{"C05", "C09"}
 		}
 		vv := viol("unexpected-file", i, -1, path, uniq(props), "file %s exists but no call of the history can have produced it (or it should have been removed)", path)
 		vv.File = path
@@ -490,7 +505,7 @@ func (st *wstate) checkMulti(i int, l *scen.Lifetime, lf *model.Life, after worl
 				props := callProps("C03")
 				if plan != nil && plan.Deletes {
 					if plan.ObsoleteTests[path+"\x00"+e.ID] {
-						props = []string{"C09"}
+						props = []string{"C05", "C09"} // clean mode did not remove it
 					}
 				}
 				return viol("entry-unexpected", i, -1, e.ID, props, "%s holds entry [%s] which should not exist (any more)", path, e.ID)
